@@ -25,7 +25,9 @@ NON_ASCII = 'éüñßøúÿþжЯ中日ﬁ🙂αλ'
 FIXED_NAMES = ['a.txt', 'b', '|', '"', '""', ' lead.txt', 'trail ', ' ', 'a|b"c.txt', '"q".csv', 'x|y', 'é ü.dat',
                'back\\slash.t', '..hid.e', '.hidden', 'z.', 'a..b', '...x', 'último.txt', 'ÿþ.bin', '中文.txt', '🙂.jpg',
                '123', '1e5', '-g', '--silent', 'path', "it's", 'a,b;c', '#c', '~t', 'UPPER.TXT', 'tab_less name.tar.gz',
-               'x' * 120 + '.long', 'é' * 100, '\\', '\\\\', '%s', '{0}', '$HOME', '*', '?', 'a:b', 'a: b', 'f: x.']
+               'x' * 120 + '.long', 'é' * 100, '\\', '\\\\', '%s', '{0}', '$HOME', '*', '?', 'a:b', 'a: b', 'f: x.',
+               # canonically equivalent but distinct names (decomposed / precomposed): different files on a posix file system
+               're\u0301sume\u0301.dat', 'r\xe9sum\xe9.dat', 'A\u030angstro\u0308m', 'n\u0303', '\xf1', 'e\u0301']
 
 
 def ok_name(n):
@@ -224,8 +226,8 @@ def read_log_errors(path, known_paths):
     out, amb = [], 0
     if not os.path.exists(path):
         return out, amb
-    with open(path, 'r', encoding='utf-8', newline='\n') as f:
-        text = f.read()
+    with open(path, 'rb') as f:
+        text = f.read().decode('utf-8', errors='replace')     # a log that is not UTF-8 yields lines no recorded path explains
     pre = '- Error for file '
     for line in text.split('\n'):
         if not line.startswith(pre):
